@@ -95,7 +95,7 @@ pub async fn scenario_c07() {
 		resp_b = GRID[(GRID.iter().position(|g| *g == resp_a).unwrap() + 1 + rt::draw("resp_shift", 5) as usize) % GRID.len()];
 	}
 	let entry = *rt::pick("entry", &[Entry::Tower, Entry::LowLevel]);
-	let frag = if rt::chance("frag", 1, 3) { Frag { short: true, latency_ms: 2 } } else { Frag::default() };
+	let frag = if rt::chance("frag", 1, 3) { Frag { short: true, latency_ms: 2, cap: 0 } } else { Frag::default() };
 	// sizes around the limit
 	let l = req_limit as usize;
 	let mut sizes: Vec<usize> = Vec::new();
@@ -234,7 +234,7 @@ pub async fn scenario_c08() {
 	let req_a = *rt::pick("req_a", &[1000u32, 4096, 65536]);
 	let req_b = if req_a == 65536 { 4096 } else { 65536 };
 	let entry = *rt::pick("entry", &[Entry::Tower, Entry::LowLevel]);
-	let frag = if rt::chance("frag", 1, 3) { Frag { short: true, latency_ms: 2 } } else { Frag::default() };
+	let frag = if rt::chance("frag", 1, 3) { Frag { short: true, latency_ms: 2, cap: 0 } } else { Frag::default() };
 	let l = resp_limit as usize;
 	// single calls around the limit
 	let mut singles: Vec<(u64, Vec<u8>, usize, String, bool)> = Vec::new();
